@@ -40,7 +40,7 @@ def replay_kani(ob, r, ctx):
     if r.engine == 'K-model':
         info = engines.prepare_unit(ob.unit, ob.extract_fn)
         crate = info['crate']
-        tdir = os.path.join(vlib.scratch(), 'kt', '%s-%s' % (ob.unit, ob.harness))
+        tdir = os.path.join(vlib.scratch(), 'kt', '%s-%s%s' % (ob.unit, ob.harness, '-f' if getattr(ob, 'rustflags', None) else ''))
         cmd = 'cd %s && cargo kani --harness %s --target-dir %s -Z concrete-playback --concrete-playback=inplace' % (crate, ob.harness, tdir) + engines.CBMC_ARGS
         stub = ''
     else:
@@ -49,7 +49,8 @@ def replay_kani(ob, r, ctx):
     # the JSON trace needs far more memory than the SAT run.  K-real: the counterexample already is on the real code; the playback run only
     # prints the concrete values and is capped (its native re-execution is not possible with stubs)
     cap = max(2 * ob.timeout, 1200) if r.engine == 'K-model' else 600
-    rc, out, secs = run(cmd, timeout=cap, mem_gb=max(40, ob.mem_gb))
+    env = vlib.env_offline({'RUSTFLAGS': ob.rustflags}) if getattr(ob, 'rustflags', None) else None
+    rc, out, secs = run(cmd, timeout=cap, mem_gb=max(40, ob.mem_gb), env=env)
     tests = re.findall(r'fn (kani_concrete_playback_\w+)', out)
     body = ['--- Kani concrete playback (inplace) output tail ---', out[-3000:], '']
     if not tests:
